@@ -30,7 +30,7 @@ ASSUMPTIONS = [
     "cells with expected count < 5 are merged with a neighbour; a configuration left with < 2 cells is not counted",
 ]
 QUICK_SHARDS = 4
-MIN_NONTRIVIAL = {"quick": 40, "thorough": 800}
+MIN_NONTRIVIAL = {"quick": 100, "thorough": 800}
 LOG_ALPHA = math.log(1e-9)
 
 VECTORS = [["1", "1"], ["1", "2", "3"], ["1", "9"], ["1", "99"], ["1"] * 10, ["0.5", "0.25", "0.25"], ["3.4", "5", "3"],
@@ -108,7 +108,7 @@ def run(ctx):
     im = impl()
     rnd = ctx.rnd
     N = 20000 if ctx.quick() else 100000
-    nconf = ctx.n(64, 1400)
+    nconf = ctx.n(160, 1400)
     worst = 0.0
     for ci in range(nconf):
         fam = FAMILIES[(ci * max(1, ctx.nshards) + ctx.shard) % len(FAMILIES)] if ci < 2 * len(FAMILIES) else rnd.choice(FAMILIES)
